@@ -1,10 +1,5 @@
 // ---------- symbol order (C15 statement) ----------
-spec fn type_syms<'a>(ts: Seq<ast::Type>, n: int) -> Seq<Symbol<'a>>
-    decreases n
-{
-    if n <= 0 { Seq::<Symbol<'a>>::empty() } else { type_syms(ts, n - 1).push(Symbol::Type(&ts[n - 1])) }
-}
-spec fn all_type_syms<'a>(ts: Seq<ast::Type>) -> Seq<Symbol<'a>> { type_syms(ts, ts.len() as int) }
+spec fn all_type_syms<'a>(ts: Seq<ast::Type>) -> Seq<Symbol<'a>> { ts.map_values(|t: ast::Type| Symbol::Type(&t)) }
 
 spec fn import_syms<'a>(is: Seq<ast::Import>, n: int) -> Seq<Symbol<'a>>
     decreases n
@@ -53,26 +48,32 @@ spec fn enum_syms<'a>(e: &'a ast::Enum, n: int) -> Seq<Symbol<'a>>
     if n <= 0 { Seq::<Symbol<'a>>::empty() } else { enum_syms(e, n - 1).push(Symbol::EnumElement(&e.elements@[n - 1], e)) }
 }
 
-spec fn item_syms<'a>(a: &'a ast::Aidl, filter: SymbolFilter) -> Seq<Symbol<'a>> {
-    let all = filter is All;
+// the item's own symbol
+spec fn item_sym<'a>(a: &'a ast::Aidl) -> Symbol<'a> {
     match &a.item {
-        ast::Item::Interface(i) =>
-            if filter is ItemsOnly { seq![Symbol::Interface(i, &a.package)] }
-            else { seq![Symbol::Interface(i, &a.package)] + iface_syms(i, i.elements@.len() as int, all) },
-        ast::Item::Parcelable(p) =>
-            if filter is ItemsOnly { seq![Symbol::Parcelable(p, &a.package)] }
-            else { seq![Symbol::Parcelable(p, &a.package)] + parc_syms(p, p.elements@.len() as int, all) },
-        ast::Item::Enum(e) =>
-            if filter is ItemsOnly { seq![Symbol::Enum(e, &a.package)] }
-            else { seq![Symbol::Enum(e, &a.package)] + enum_syms(e, e.elements@.len() as int) },
+        ast::Item::Interface(i) => Symbol::Interface(i, &a.package),
+        ast::Item::Parcelable(p) => Symbol::Parcelable(p, &a.package),
+        ast::Item::Enum(e) => Symbol::Enum(e, &a.package),
     }
 }
-
-// the visit sequence at each filter level
-spec fn symbols_of<'a>(a: &'a ast::Aidl, filter: SymbolFilter) -> Seq<Symbol<'a>> {
-    if filter is All { seq![Symbol::Package(&a.package)] + import_syms(a.imports@, a.imports@.len() as int) + item_syms(a, filter) }
-    else { item_syms(a, filter) }
+// what precedes the members: package and imports (most detailed level only), then the item
+spec fn head_syms<'a>(a: &'a ast::Aidl, filter: SymbolFilter) -> Seq<Symbol<'a>> {
+    if filter is All { seq![Symbol::Package(&a.package)] + import_syms(a.imports@, a.imports@.len() as int) + seq![item_sym(a)] }
+    else { seq![item_sym(a)] }
 }
+// the members (absent at the coarsest level)
+spec fn member_syms<'a>(a: &'a ast::Aidl, filter: SymbolFilter) -> Seq<Symbol<'a>> {
+    if filter is ItemsOnly { Seq::<Symbol<'a>>::empty() }
+    else {
+        match &a.item {
+            ast::Item::Interface(i) => iface_syms(i, i.elements@.len() as int, filter is All),
+            ast::Item::Parcelable(p) => parc_syms(p, p.elements@.len() as int, filter is All),
+            ast::Item::Enum(e) => enum_syms(e, e.elements@.len() as int),
+        }
+    }
+}
+// the visit sequence at each filter level
+spec fn symbols_of<'a>(a: &'a ast::Aidl, filter: SymbolFilter) -> Seq<Symbol<'a>> { head_syms(a, filter) + member_syms(a, filter) }
 
 // ---------- C16 ----------
 spec fn lc_le(a: (usize, usize), b: (usize, usize)) -> bool { a.0 < b.0 || (a.0 == b.0 && a.1 <= b.1) }
